@@ -50,7 +50,7 @@ def analytic(kind, r):
     return psi, dR, dZ
 
 
-def build_eq(kind, method, r, shape=None, box=None, fpol_kind="linear", psi_sign=1.0, extra=None):
+def build_eq(kind, method, r, shape=None, box=None, fpol_kind="linear", psi_sign=1.0, extra=None, nodes=None):
     from hypnotoad import tokamak
 
     with warnings.catch_warnings(), contextlib.redirect_stdout(io.StringIO()):
@@ -71,6 +71,17 @@ def build_eq(kind, method, r, shape=None, box=None, fpol_kind="linear", psi_sign
             nx, ny = shape
             (Rlo, Rhi), (Zlo, Zhi) = box
             r1, z1 = np.linspace(Rlo, Rhi, nx), np.linspace(Zlo, Zhi, ny)
+            # node coordinates that are only almost equally spaced (written with 5 decimals, passed through float32, or carrying a
+            # relative error of 3e-6): the data are sampled at exactly these nodes, so an interpolant must reproduce them there or the
+            # constructor must refuse the grid
+            if nodes == "round5":
+                r1, z1 = np.round(r1, 5), np.round(z1, 5)
+            elif nodes == "float32":
+                r1, z1 = r1.astype(np.float32).astype(float), z1.astype(np.float32).astype(float)
+            elif nodes == "rel3e-6":
+                r1 = r1 * (1.0 + 3e-6 * np.sin(np.arange(nx) * 1.7))
+                z1 = z1 * (1.0 + 3e-6 * np.cos(np.arange(ny) * 2.3))
+                r1[0], r1[-1], z1[0], z1[-1] = Rlo, Rhi, Zlo, Zhi
             psi, dR, dZ = analytic(kind, r)
             R2, Z2 = np.meshgrid(r1, z1, indexing="ij")
             p2 = psi(R2, Z2)
@@ -241,6 +252,8 @@ def run(res, tier):
         cases.append(("ana", method, dict(shape=(41, 57), box=((1.0, 2.0), (-1.0, 1.0)))))
         cases.append(("ana", method, dict(shape=(33, 97), box=((0.2, 1.0), (-2.0, 2.0)))))      # tall box: max(Z) > max(R)
         cases.append(("ana", method, dict(shape=(64, 40), box=((1.0, 3.0), (0.5, 2.5)))))        # shifted upwards
+        for nodes in ("round5", "float32", "rel3e-6"):
+            cases.append(("ana", method, dict(shape=(47, 40), box=((1.0, 3.0), (0.5, 2.5)), nodes=nodes)))
         if tier == "thorough":
             cases.append(("usn", method, dict(fpol_kind="const")))
             cases.append(("udn", method, dict(fpol_kind="quad")))
